@@ -865,6 +865,10 @@ where
             for item in self.raw.iter() {
                 if !f(item.as_mut()) {
                     self.raw.erase(item);
+                    #[cfg(hashbrown_verif)]
+                    if crate::verif::unwinding() {
+                        return;
+                    }
                 }
             }
         }
